@@ -26,9 +26,21 @@ fn exec(sc: &Scenario) -> Report {
     let (res, out) = World::run(Config::sequential(sc.seed), move || {
         let sc = sc2;
         let mut r = Report::default();
-        let term = SimTerm::new(60, 10);
+        let mut term = SimTerm::new(60, 10);
         let hz = sc.c("hz");
-        let target = if hz > 0 {
+        // now and then a real console::Term on the slave side of a kernel pty (the `Term` arm of
+        // the draw target with its own limiter set-up): frames are the bytes that arrive
+        let mut pty_term: Option<console::Term> = None;
+        if sc.c("pty") == 1 && hz > 0 {
+            if let Some((t, ct)) = SimTerm::new_pty(60, 10) {
+                term = t;
+                pty_term = Some(ct);
+                r.probe("pty_runs");
+            }
+        }
+        let target = if let Some(ct) = pty_term {
+            ProgressDrawTarget::term(ct, hz as u8)
+        } else if hz > 0 {
             ProgressDrawTarget::term_like_with_hz(Box::new(term.clone()), hz as u8)
         } else {
             ProgressDrawTarget::term_like(Box::new(term.clone()))
@@ -302,7 +314,7 @@ impl Check for C05 {
         "C05"
     }
     fn rule_text(&self) -> String {
-        "50..400 requests (tick, set_message, update, reset (also right after finish_and_clear) = direct ordinary; inc/set_position = through the position bucket; println/force_draw/mp.println/mp.clear and finishing + dropping sibling bars above the bar under test = forced, excluded from the law) on a target with refresh rate R uniform in 1..=255 or without limiter, standalone or as a MultiProgress target; arrival gaps from a mixture: 0, 1 ns, I±{0,1 ns,1 µs}, k*I±..., 1 ms±1 ns, sub-interval uniform, seconds, hours (I = 1e9/R ns). Laws checked on the recorded paint timestamps: (1) every window of ordinary frames satisfies count <= 20 + R*T + 1 (integer arithmetic), (2) a direct ordinary request arriving >= ceil(1e9/R) ns after the last painted frame is painted, (3) after every position update the last painted frame is younger than ceil(1e9/R) ns + 1 ms, (4) on an unlimited target admitted position updates obey burst 10 / 1 per ms and a position update >= 1 ms after the last admitted one is admitted, (5) every painted frame shows the latest position and message. Non-trivial: >= 3 frames caused by ordinary requests. Distinct = distinct scenario hash.".into()
+        "50..400 requests (tick, set_message, update, reset (also right after finish_and_clear) = direct ordinary; inc/set_position = through the position bucket; println/force_draw/mp.println/mp.clear and finishing + dropping sibling bars above the bar under test = forced, excluded from the law) on a target with refresh rate R uniform in 1..=255 or without limiter, standalone or as a MultiProgress target (one run in thirty on a real console::Term over a kernel pty); arrival gaps from a mixture: 0, 1 ns, I±{0,1 ns,1 µs}, k*I±..., 1 ms±1 ns, sub-interval uniform, seconds, hours (I = 1e9/R ns). Laws checked on the recorded paint timestamps: (1) every window of ordinary frames satisfies count <= 20 + R*T + 1 (integer arithmetic), (2) a direct ordinary request arriving >= ceil(1e9/R) ns after the last painted frame is painted, (3) after every position update the last painted frame is younger than ceil(1e9/R) ns + 1 ms, (4) on an unlimited target admitted position updates obey burst 10 / 1 per ms and a position update >= 1 ms after the last admitted one is admitted, (5) every painted frame shows the latest position and message. Non-trivial: >= 3 frames caused by ordinary requests. Distinct = distinct scenario hash.".into()
     }
     fn assumptions(&self) -> Vec<String> {
         vec!["time is integral nanoseconds on the virtual clock; no steady ticker is installed".into()]
@@ -340,6 +352,7 @@ impl Check for C05 {
         };
         sc.set("hz", hz);
         sc.set("multi", rng.chance(1, 3) as u64);
+        sc.set("pty", rng.chance(1, 30) as u64);
         let i = if hz > 0 { 1_000_000_000 / hz } else { 1_000_000 };
         let n = rng.range(50, if tier == Tier::Quick { 250 } else { 400 });
         // per-run mixture weights (swarm)
@@ -435,6 +448,6 @@ impl Check for C05 {
         exec(sc)
     }
     fn shrink_cfg(&self) -> Vec<(&'static str, u64)> {
-        vec![("multi", 0), ("n_sibs", 0)]
+        vec![("multi", 0), ("n_sibs", 0), ("pty", 0)]
     }
 }
